@@ -601,11 +601,11 @@ def gen_c01(rng: random.Random, tier: str) -> dict:
     big = tier == 'thorough'
     r0 = rng.random()
     if r0 < 0.12:
-        return gen_deep_routing(rng, tier)
+        return dict(gen_deep_routing(rng, tier), cls='deep-routing')
     if r0 < 0.18:
-        return gen_level3_sparse(rng, tier)
+        return dict(gen_level3_sparse(rng, tier), cls='level3-sparse')
     if r0 < (0.40 if big else 0.28):
-        return gen_level4_pam(rng, tier)
+        return dict(gen_level4_pam(rng, tier), cls='level4-pam')
     n = rng.choice([1, 2, 2, 3, 3, 4] + ([5, 6] if big else []))
     depth = rng.randint(2, 10 if n <= 3 else 7)
     inp = CI.gen_circuit(rng, n, depth)
